@@ -21,8 +21,8 @@ import (
 // Spec Collision (C24): a real bgpServer with one passive eBGP peer; the harness (the remote speaker) opens several
 // connections for that peer through its own tcp.ListenerManagerI. Every accepted connection gets its own FSM
 // (server.incomingConnectionWorker); connection k is FSM k-1 of the peer (a passive peer has no FSM of its own).
-// Outgoing connections cannot be driven offline (tcp.Dial to port 179); an FSM that is handed a connection runs the
-// same code from Active state whether the connection was dialled or accepted.
+// With outgoing = true the peer is active: its own FSM dials (tcp.Dial fails offline) and is handed connection 1 through
+// the verif hook at the point where its TCP connector would deliver the dialled connection.
 
 type collMsg struct {
 	Kind string `json:"kind"`
@@ -49,7 +49,10 @@ type collSession struct {
 	conns   map[int]*vconn
 }
 
-func newCollSession(order string) *collSession {
+func newCollSession(order string) *collSession { return newCollSessionDir(order, false) }
+
+// outgoing: the peer is not passive; its own FSM (index 0) waits for the connection its TCP connector dials
+func newCollSessionDir(order string, outgoing bool) *collSession {
 	s := &collSession{peerIP: net.IPv4(10, 0, 0, 201).To4(), peerAS: 65001, peerID: 201, conns: map[int]*vconn{}}
 	switch order { // the speaker: BGP identifier 100, AS 65000
 	case "localLower":
@@ -76,7 +79,10 @@ func newCollSession(order string) *collSession {
 	pa, _ := bnet.IPFromBytes(s.peerIP)
 	s.peerKey = pa.Dedup()
 	pc := server.PeerConfig{AdminEnabled: true, LocalAS: 65000, PeerAS: s.peerAS, LocalAddress: bnet.IPv4FromOctets(10, 0, 0, 200).Ptr(),
-		PeerAddress: s.peerKey, Passive: true, VRF: s.vrf, RouterID: 100, HoldTime: 90 * time.Second, KeepAlive: 30 * time.Second, IPv4: af()}
+		PeerAddress: s.peerKey, Passive: !outgoing, VRF: s.vrf, RouterID: 100, HoldTime: 90 * time.Second, KeepAlive: 30 * time.Second, IPv4: af()}
+	if outgoing {
+		pc.ReconnectInterval = 5 * time.Millisecond // the peer's own FSM starts dialling on its own
+	}
 	if err := s.srv.AddPeer(pc); err != nil {
 		panic("harness: AddPeer: " + err.Error())
 	}
@@ -122,6 +128,9 @@ func (s *collSession) observe(n int) (collState, bool) {
 			st := "no-fsm"
 			if c-1 < len(fsms) {
 				st = fsms[c-1].State
+			}
+			if closed && (st == "connect" || st == "active") {
+				st = "idle" // the peer's own FSM is ready to dial again
 			}
 			switch st {
 			case "idle", "cease":
@@ -231,6 +240,7 @@ func init() {
 		var s *collSession
 		settle := time.Duration(p.Int("settle_ms", 40)) * time.Millisecond
 		order := ""
+		outgoing := false
 		for i, st := range b.Steps {
 			a := st.Str("a")
 			core.At(i, a)
@@ -248,11 +258,22 @@ func init() {
 			switch a {
 			case "Config":
 				order = st.Str("order")
-				s = newCollSession(order)
+				outgoing = st.Bool("outgoing")
+				s = newCollSessionDir(order, outgoing)
+				if outgoing {
+					order += "+outgoing"
+				}
 			case "Connect":
 				vc := newVconn(net.IPv4(10, 0, 0, 200).To4(), s.peerIP)
 				vc.remote = &net.TCPAddr{IP: s.peerIP, Port: 40000 + c}
 				s.conns[c] = vc
+				if outgoing && c == 1 {
+					// the dial of the peer's own FSM "succeeds": the connection is handed over where the TCP connector does it
+					if !server.VerifDeliverConn(s.srv, s.vrf, s.peerKey, 0, vc, 5*time.Second) {
+						return &core.Divergence{Step: i, Action: a, Field: "dial", Kind: "hang", Class: order, Want: "the peer's own FSM takes its connection"}
+					}
+					break
+				}
 				select {
 				case s.lm.ch <- tcp.ConnWithVRF{Conn: vc, VRF: s.vrf}:
 				case <-time.After(3 * time.Second):
